@@ -51,7 +51,7 @@ fn frames_of(wire: &[u8]) -> Vec<&[u8]> {
 fn oracle_call(frame: &[u8]) -> String {
     match serde_json::from_slice::<Call<M>>(frame) {
         Ok(c) => format!("ok:{c:?}"),
-        Err(_) => "err:json".into(),
+        Err(_) => "err:decode".into(),
     }
 }
 
@@ -79,7 +79,8 @@ fn run_recv(wire: &[u8], cuts: &[usize], pending_reads: &[usize]) -> (Vec<String
                 Poll::Ready(r) => Some(match r {
                     Ok(c) => format!("ok:{c:?}"),
                     Err(zlink_core::Error::UnexpectedEof) => "err:eof".to_string(),
-                    Err(zlink_core::Error::Json(_)) => "err:json".to_string(),
+                    // any other error is "this frame could not be decoded" (which variant reports it is not the property's business)
+                    Err(zlink_core::Error::Json(_)) | Err(zlink_core::Error::InvalidUtf8(_)) => "err:decode".to_string(),
                     Err(e) => format!("err:{e:?}"),
                 }),
                 Poll::Pending => None, // future dropped here = cancellation
@@ -595,10 +596,11 @@ fn run_send(ops: &[(u8, usize)]) -> (Vec<String>, Vec<String>) {
     for (k, size) in ops {
         let payload = "x".repeat(*size);
         match k {
-            0 => { let c = Call::new(M::S { s: payload }); if conn.enqueue_call(&c).is_ok() { pending.extend(frame(serde_json::to_vec(&c).unwrap())); } }
-            1 => { let c = Call::new(M::S { s: payload }); if block_on(conn.send_call(&c), 10).is_ok() { pending.extend(frame(serde_json::to_vec(&c).unwrap())); expected.push(std::mem::take(&mut pending)); } }
-            2 => { let r = Reply::new(Some(M::S { s: payload })).set_continues(Some(true)); if block_on(conn.send_reply(&r), 10).is_ok() { pending.extend(frame(serde_json::to_vec(&r).unwrap())); expected.push(std::mem::take(&mut pending)); } }
-            3 => { let e = E::Bad { code: *size as u32 }; if block_on(conn.send_error(&e), 10).is_ok() { pending.extend(frame(serde_json::to_vec(&e).unwrap())); expected.push(std::mem::take(&mut pending)); } }
+            // every message here is far below the 100 MiB limit: it must be ACCEPTED (a refusal of an acceptable message is a failure)
+            0 => { let c = Call::new(M::S { s: payload }); match conn.enqueue_call(&c) { Ok(_) => pending.extend(frame(serde_json::to_vec(&c).unwrap())), Err(e) => expected.push(format!("<acceptable call of {size} payload bytes refused: {e:?}>").into_bytes()) } }
+            1 => { let c = Call::new(M::S { s: payload }); match block_on(conn.send_call(&c), 10) { Ok(_) => { pending.extend(frame(serde_json::to_vec(&c).unwrap())); expected.push(std::mem::take(&mut pending)); } Err(e) => expected.push(format!("<acceptable call of {size} payload bytes refused: {e:?}>").into_bytes()) } }
+            2 => { let r = Reply::new(Some(M::S { s: payload })).set_continues(Some(true)); match block_on(conn.send_reply(&r), 10) { Ok(_) => { pending.extend(frame(serde_json::to_vec(&r).unwrap())); expected.push(std::mem::take(&mut pending)); } Err(e) => expected.push(format!("<acceptable reply refused: {e:?}>").into_bytes()) } }
+            3 => { let e = E::Bad { code: *size as u32 }; match block_on(conn.send_error(&e), 10) { Ok(_) => { pending.extend(frame(serde_json::to_vec(&e).unwrap())); expected.push(std::mem::take(&mut pending)); } Err(x) => expected.push(format!("<acceptable error reply refused: {x:?}>").into_bytes()) } }
             4 => { let _ = block_on(conn.flush(), 10); if !pending.is_empty() { expected.push(std::mem::take(&mut pending)); } }
             _ => { let r = block_on(conn.send_error(&BadKey(*size)), 10); if r.is_ok() { expected.push(b"<refused message was accepted>".to_vec()); } }
         }
@@ -931,6 +933,9 @@ fn gen_frame(rng: &mut Rng) -> Vec<u8> {
     };
     let mut f = pad(rng).into_bytes();
     f.extend_from_slice(body.as_bytes());
+    // frames are bytes, not text: now and then one carries bytes that are not UTF-8 (e.g. a Latin-1 string) - undecodable,
+    // and consumed like any other frame
+    if rng.below(12) == 0 && f.len() > 4 { let k = 1 + rng.below(f.len() - 2); f[k] = [0xffu8, 0xe9, 0xc0, 0x80][rng.below(4)]; }
     f.extend_from_slice(pad(rng).as_bytes());
     if f.is_empty() {
         f.push(b' ');
